@@ -64,7 +64,7 @@ class C09Expanding(Scenario):
             key = seams.key_of(step["k"])
             was_present = o.check(key)
             eff = step["force"] or not was_present
-            o.add(key, step["force"])
+            structs.api_add(o, key, step.get("alt"), force=bool(step["force"]), hasher=self.sub.hasher)
             self.calls += 1
             counts, arrays, foot = self.stream(sig)
             if eff:
